@@ -198,7 +198,7 @@ Proof using Hexp.
         exists m. split; [reflexivity|]. apply foreign_clash; [exact (si_db s Hinv)|exact Hkf]. }
   clear Hkf.
   rewrite (step_cmd cfg s c msg o t cs Hhas Ht).
-  set (s1 := set_log s [LFrame c (FAck (m_id msg)) (is_clean s)]).
+  set (s1 := set_log s [LFrame c (FAck (m_id msg)) (is_clean s) (now s)]).
   assert (Hco : conn_of s1 c = cs) by reflexivity.
   assert (Hl1 : lookup_conn c (conns s1) = Some cs) by exact Hhas.
   destruct Hcase as [[-> [m [Hm Hclash]]] | [-> [m [Hcm Hclash]]]].
@@ -234,7 +234,7 @@ Theorem kf2_sound s c msg o :
   let '(s', ob) := step cfg s (EB (ECmd c msg o)) in
   o_exc ob = None /\
   (exists k, (k = ErrCrowded \/ (k = ErrReclaimed /\ m_type msg = Some TClaim)) /\
-             frames_of (o_log ob) = [(c, FAck (m_id msg)); (c, FError k)]) /\
+             frames_of (o_log ob) = [(c, FAck (m_id msg)); (c, FError k msg)]) /\
   subs s' = subs s /\ messages (chan_w s') = messages (chan_w s).
 Proof using Hexp.
   intros Hinv Hlog Hhas Hkf Herr Hnf.
@@ -253,7 +253,7 @@ Proof using Hexp.
     assert (Hdc : c_did_claim cs = false).
     { unfold erroneous in Herr. rewrite Ht, Hb, Hn in Herr. exact Herr. }
     rewrite (step_cmd cfg s c msg o TClaim cs Hhas Ht).
-    set (s1 := set_log s [LFrame c (FAck (m_id msg)) (is_clean s)]).
+    set (s1 := set_log s [LFrame c (FAck (m_id msg)) (is_clean s) (now s)]).
     assert (Hco : conn_of s1 c = cs) by reflexivity.
     assert (Hl1 : lookup_conn c (conns s1) = Some cs) by exact Hhas.
     rewrite (dispatch_bound cfg c TClaim msg o s1 a side)
@@ -328,7 +328,7 @@ Proof using Hexp.
   assert (Hda : c_did_allocate cs = false).
   { unfold erroneous in Herr. rewrite Ht, Hb in Herr. exact Herr. }
   rewrite (step_cmd cfg s c msg o TAllocate cs Hhas Ht).
-  set (s1 := set_log s [LFrame c (FAck (m_id msg)) (is_clean s)]).
+  set (s1 := set_log s [LFrame c (FAck (m_id msg)) (is_clean s) (now s)]).
   assert (Hco : conn_of s1 c = cs) by reflexivity.
   assert (Hl1 : lookup_conn c (conns s1) = Some cs) by exact Hhas.
   rewrite (dispatch_bound cfg c TAllocate msg o s1 a side)
